@@ -16,5 +16,6 @@ func init() {
 	Registry["DEVFLOW"] = func(run *vf.Run) { FlowTraceStage(run, "profiles", "crs", "generated") }
 	Registry["DEVFLOWP"] = func(run *vf.Run) { FlowTraceStage(run, "profiles") }
 	Registry["DEVFLOWC"] = func(run *vf.Run) { FlowTraceStage(run, "crs") }
+	Registry["DEVFLOWA"] = func(run *vf.Run) { FlowTraceStage(run, "api") }
 	Registry["DEVFLOWG"] = func(run *vf.Run) { FlowTraceStage(run, "generated") }
 }
